@@ -24,6 +24,7 @@ def outcome(case, M, warm=None):
             CL.write_requirements_file(r["_results"], r["_roots"], repo=r["_repo"], multiline=True, write_to=buf)
             out["text"] = buf.getvalue()
         except Exception as ex:  # noqa: BLE001
+            common.reraise_harness_fault(ex)     # the in-memory repository is the harness's: crash, do not report an outcome
             out["text"] = "WRITER-ERROR " + type(ex).__name__
     elif r["kind"] == "NOCAND":
         out["name"] = r["name"].lower()
